@@ -151,6 +151,12 @@ class VisibilityGraph(InteractingNetworks):
         A = np.zeros((N, N), dtype=MASK)
 
         _visibility_relations_horizontal(x, N, A)
+
+        #  Missing values are isolated (they already block visibility)
+        if self.missing_values:
+            A[self.missing_value_indices, :] = 0
+            A[:, self.missing_value_indices] = 0
+
         return A
 
     #
